@@ -195,6 +195,40 @@ func (m *RWMutex) RUnlock() {
 	heldModel.Add(-1)
 }
 
+func (m *RWMutex) TryLock() bool {
+	s := sched.Active()
+	if s == nil {
+		return m.real.TryLock()
+	}
+	if s.Tearing() {
+		return true
+	}
+	s.Point("trywlock", m.name(), nil)
+	if m.writer || m.readers > 0 {
+		return false
+	}
+	m.writer, m.wowner = true, s.Current()
+	heldModel.Add(1)
+	return true
+}
+
+func (m *RWMutex) TryRLock() bool {
+	s := sched.Active()
+	if s == nil {
+		return m.real.TryRLock()
+	}
+	if s.Tearing() {
+		return true
+	}
+	s.Point("tryrlock", m.name(), nil)
+	if m.writer {
+		return false
+	}
+	m.readers++
+	heldModel.Add(1)
+	return true
+}
+
 func (m *RWMutex) RLocker() Locker { return (*rlocker)(m) }
 
 type rlocker RWMutex
